@@ -233,6 +233,8 @@ package frame
 // authBy: the session whose key authenticated the frame's bytes at the last Unseal, even when the sequence check
 // that follows then refused it as a duplicate (nil if the signature / MAC did not verify)
 //@   ghost authBy *state.Session
+// escalated: the switch has offered this frame to the router's input (set by switchr.Switch.escalateFrame only)
+//@   ghost escalated bool
 
 //@ func FrameV1.Unseal
 //@   requires live(f) && s != nil
